@@ -182,6 +182,23 @@ func c16Gen(rng *verifsim.RNG, idx int, tier string) *Plan {
 		p.Horizon = horizon + 2*nsSec
 		return p
 	}
+	if rng.Bool(0.2) {
+		// a transmission fails for a transient reason (an interrupted call),
+		// around a deadline or anywhere: whatever reaches the socket afterwards,
+		// on this connection or the next, carries the time remaining then
+		at := int64(rng.Dur(0, time.Duration(horizon)))
+		if len(deadlines) > 0 && rng.Bool(0.6) {
+			if d := int64(deadlines[rng.Intn(len(deadlines))]); d < horizon {
+				at = d - int64(rng.Dur(0, 400*time.Millisecond))
+			}
+		}
+		if at < 1 {
+			at = 1
+		}
+		p.Faults = append(p.Faults, Fault{Seam: "write", From: at, Count: rng.Range(1, 2), Err: []string{"EINTR", "EMFILE", "ENOBUFS"}[rng.Intn(3)], Lat: []int64{0, int64(rng.Dur(0, 900*time.Millisecond))}[rng.Intn(2)]})
+		p.Actions = append(p.Actions, rsAction(at+1000, hostAddr(1)), rsAction(at+2000, "::"))
+		p.Class += "+failing-send"
+	}
 	maybeReinit(rng, p, "eth0", 500*nsMs, horizon, 0.25)
 	p.Horizon = horizon
 	return p
